@@ -35,7 +35,7 @@ def correspond(ctx):
         to = 1500
     else:
         args = ['exh=3', 'small=3000', 'cases=150', 'len=160', 'keccak=1000']
-        to = 300
+        to = 900
     c = vlib.correspond(ctx, 'c02', 'C02', args, timeout=to,
                         nontrivial=lambda o, x: x != 'bad-op')
     c['name'] = 'trie-ops'
